@@ -204,6 +204,15 @@ class Interp(object):
     def op_v_setitem(self, x, i, v):
         x[i] = v
 
+    def op_v_item_mutate(self, x, i, j, v):
+        """In-place edit of one component of an n-tuple value through item access: p[i][j] = v."""
+        if not len(x):
+            raise Skip("no values")
+        item = x[i % len(x)]
+        if not isinstance(item, list) or not item:
+            raise Skip("value is not a list")
+        item[j % len(item)] = v
+
     def op_v_remove(self, x, v):
         x.remove(v)
 
